@@ -339,6 +339,10 @@ def q(tier, a, b):
 
 
 with_jobs("C03", lambda tier: [
+    S("dbg", "ctor", "--n", ns(0, q(tier, 4, 7))),
+    S("dbg", "iters", "--n", ns(0, q(tier, 4, 6))),
+    S("dbg", "drain", "--n", ns(0, q(tier, 4, 6))),
+    S("rel", "drain", "--n", ns(0, q(tier, 4, 6))),
     S("asan", "sweep", "--n", ns(0, q(tier, 3, 5))),
     S("asan", "drain", "--n", ns(0, q(tier, 4, 6))),
     S("asan", "iters", "--n", ns(0, q(tier, 3, 5))),
@@ -394,7 +398,7 @@ with_jobs("C10", lambda tier: [
 ])
 
 with_jobs("C19", lambda tier: [
-    S("miri-plain", "zst", "--z", "0,2,8,10", "--ops", 60, "--sample", q(tier, 2500, 300)),
+    S("miri-plain", "zst", "--z", q(tier, "0,2,9", "0,1,2,3,5,9,10"), "--ops", 0, "--lean", 1, "--sample", q(tier, 80, 12)),
 ])
 
 NATIVE_NOTE = "Trusted base: the harness itself (element type, ledger, model written from the documentation, orchestrator), rustc/cargo, the determinism of the crate (no threads/clock/IO). Held only on the executions produced; nothing is proved."
